@@ -207,6 +207,42 @@ def run():
             else:
                 continue
             chk.violation(sig, {"case": case, "ops": e["ops"], "quiet": cfgq[1], "color": cfgq[2]}, msg)
+    # 3. the mechanism model of EditDistance (spec/Levenshtein.tla): model-checked, and its simulated behaviours -
+    #    environments of scripted cells x orders of public operations - replayed on the real class
+    from props import _lev
+    _lev.model_check(chk, t)
+    corpus._quiet_env()
+    lev_groups = {}
+    n_beh = 0
+    drift_count = 0
+    for config, num in (("2x1", 300), ("1x1", 200), ("2x2", 300)) if t == "quick" else (("2x1", 3000), ("1x1", 1500), ("2x2", 3000), ("3x1", 2000)):
+        behs, res = _lev.generate(config, num, 6)
+        chk.add_tlc(res, "LevenshteinGen", "simulation of %d behaviours of the EditDistance model (%s)" % (num, config))
+        for b in behs:
+            drift, obs = _lev.replay(config, b)
+            n_beh += 1
+            if drift:
+                drift_count += 1
+                if len(chk.drift) < 5:
+                    chk.drift.append("Levenshtein.tla %s: %s (environment %s, operations %s)" % (config, drift[0], obs["env"][:200], obs["ops"]))
+            lev_groups.setdefault((config, obs["env"]), []).append(obs)
+    chk.extra["editdistance_model_behaviours_replayed"] = n_beh
+    chk.extra["editdistance_model_behaviours_with_drift"] = drift_count
+    keys = sorted(lev_groups)
+    ltraces = [{"ev": [{"ops": o["ops"], "raised": o["raised"], "out": o["out"]} for o in lev_groups[k]]} for k in keys]
+    lverdicts, lst = tlc.validate_traces("EditApiTrace", ltraces, constants={"Ops": {"x"}, "MaxOps": 1000, "Results": {"r"}},
+                                         name="EditApiTrace-lev")
+    chk.add_trace_stats(lst, "EditApiTrace", sum(len(tr["ev"]) for tr in ltraces))
+    for i, k in enumerate(keys, 1):
+        for o in lev_groups[k]:
+            chk.count(("lev", k[0], k[1], tuple(o["ops"])))
+        v = lverdicts[i]
+        if v["v"] != "ACCEPT":
+            o = lev_groups[k][v["step"] - 1]
+            sig = {"clause": v["clause"], "kind": "scripted-editdistance", "exc": o["exc"].split(":")[0]}
+            chk.violation(sig, {"config": k[0], "cells": json.loads(k[1]), "ops": o["ops"]},
+                          "EditDistance %s over scripted cells %s: operations %s end with %s %s, the first history with %s" % (
+                              k[0], k[1][:300], o["ops"], o["out"], o["exc"], lev_groups[k][0]["out"]))
     chk.sample({"case": jobs[0][0], "histories": [e for e in results[0][:6]]})
     chk.sample({"case": jobs[-1][0], "histories": [e for e in results[-1][-3:]]})
     chk.rule = ("cases = (pair of documents with nested containers, history) where histories are all sequences over 12 "
